@@ -170,6 +170,21 @@ CHECKS["C19"] = dict(
     technique="Coq proof over an abstract transactional store with generated tables + SIGKILL fault injection with model/oracle comparison",
     design="5/C19")
 
+CHECKS["C12"] = dict(
+    text="Coq refinement proof (12 theorems, one representation invariant preserved by every operation, all cache caps incl. 0, all "
+         "blacklists): for every history of Network operations (adds, discoveries, removals, cache-mutating queries, cache overflows, "
+         "snapshots) every lookup (by key, by address, per service, walkable, introductions, services, snapshot) answers exactly what the "
+         "verified set, its addresses and the advertised services imply; queries leave the graph unchanged; removed peers are returned by "
+         "nothing and can be re-added; blacklisted mids and addresses are never verified; a snapshot reloads to exactly the verified "
+         "peers' preferred addresses; load_snapshot terminates on every byte string. Tied on every run to the real Network/Peer classes by "
+         "breadth-first exploration of all operation sequences (depth 3-4 full alphabet, 4-6 reduced) plus random 200-step sequences with "
+         "state-exact comparison (chained hash of return value + full abstracted state) after every operation, and an independent oracle.",
+    note="Trusted: Coq kernel; hand model M12_network and the harness abstraction (61-bit chained hash comparison). Assumes fresh, "
+         "caller-unmodified Peer arguments, inet_ntop-form addresses (host-name snapshot records not modelled), mid identified with the "
+         "key, blacklists fixed before the first operation; graph_lock/threads not modelled. Model follows the 7 fix commits fb27d78..747eec9.",
+    technique="Coq refinement proof (representation invariant, abstraction to a cache-free spec) + exhaustive/random differential correspondence",
+    design="5/C12")
+
 NOT_APPLICABLE = {}
 
 
